@@ -1,5 +1,5 @@
 (* C14 — removing an entity removes all of it, only it, and is repeatable. Property theorems only.
-   The model (Remove.v) follows the code with the two repairs of this property applied; the last two theorems
+   The model (Remove.v) follows the code with the repairs of this property applied; the theorems named *_pinned_refuted
    state what the code did before them. [xo] is the excerpt oracle, [post] the merge-result oracle: arbitrary. *)
 From Coq Require Import List NArith Bool Sorting.Permutation.
 Import ListNotations.
@@ -25,6 +25,12 @@ Theorem C14_remove_exact_entity xo post k i s : wf s ->
   (snd (step xo post (AEntRemove k i) s) <> OOk -> fst (step xo post (AEntRemove k i) s) = s).
 Proof. exact (remove_exact_entity xo post k i s). Qed.
 Print Assumptions C14_remove_exact_entity.
+
+(* What is not a complete entity id (a prefix, the empty text, anything that is not 64 characters of a-z0-9) is refused
+   by bug.Remove and identity.Remove, and nothing is touched. *)
+Theorem C14_remove_refuses_non_id xo post k i s : valid_id i = false -> step xo post (AEntRemove k i) s = (s, EOther).
+Proof. exact (ent_remove_invalid k i s). Qed.
+Print Assumptions C14_remove_refuses_non_id.
 
 (* Doing any removal (one entity, all entities, wipe; any API level) a second time changes nothing. *)
 Theorem C14_idempotent xo post post' a s : repeatable a s ->
@@ -57,6 +63,19 @@ Theorem C14_removeall_clean xo post s : wf s ->
 Proof. exact (removeall_clean xo post s). Qed.
 Print Assumptions C14_removeall_clean.
 
+(* RemoveAll (entity API, cache API) and wipe leave every ref alone that is not git-bug's: foreign refs and, under
+   refs/remotes/<remote>/{bugs,identities}/, the names that are not ids (the remote-tracking branches of the user's
+   branches bugs/<something>, identities/<something>). With C14_wipe_clean / C14_removeall_clean (which hold for every
+   state, whatever names lie under refs/bugs/ and refs/identities/): exactly git-bug's refs go, and they always go. *)
+Theorem C14_removeall_spares_foreign xo post a s n h : removes_everything a ->
+  In (n, h) (refs s) -> is_gbref n = false -> In (n, h) (refs (fst (step xo post a s))).
+Proof. exact (removeall_spares_foreign xo post a s n h). Qed.
+Print Assumptions C14_removeall_spares_foreign.
+
+Theorem C14_user_branch_is_foreign n r : rl n = Track r -> valid_id (rid n) = false -> is_gbref n = false.
+Proof. exact (user_branch_foreign n r). Qed.
+Print Assumptions C14_user_branch_is_foreign.
+
 (* the hypothesis wf (tracking refs only under configured remotes) is an invariant of every action *)
 Theorem C14_wf_invariant xo post a s : wf s -> wf (fst (step xo post a s)).
 Proof. exact (wf_step xo post a s). Qed.
@@ -74,10 +93,47 @@ Theorem C14_removeall_pinned_refuted :
 Proof. exact removeall_v0_refuted. Qed.
 Print Assumptions C14_removeall_pinned_refuted.
 
+(* before the repairs that followed the audit of the tree: *)
+(* identity.Remove took its argument as a prefix of ref names: asked for 'u' it removed the identity 'uuu...u' *)
+Theorem C14_identity_remove_prefix_pinned_refuted : exists s p n, wf s /\ valid_id p = false /\ rid n <> p /\
+  has_ref n (refs s) = true /\ snd (ident_remove_v1 p s) = OOk /\ has_ref n (refs (fst (ident_remove_v1 p s))) = false.
+Proof. exact ident_remove_v1_refuted. Qed.
+Print Assumptions C14_identity_remove_prefix_pinned_refuted.
+
+(* in every repository: one name under refs/<ns>/ that is not a valid id made RemoveAll (hence wipe) fail and stay where
+   it is, so that every repetition failed the same way *)
+Theorem C14_removeall_stray_name_pinned_refuted rs k l i : In i (local_ids k l) -> valid_id i = false ->
+  snd (ent_remove_all_v1 rs k l) = EOther /\ In i (local_ids k (fst (ent_remove_all_v1 rs k l))).
+Proof. exact (removeall_v1_stuck rs k l i). Qed.
+Print Assumptions C14_removeall_stray_name_pinned_refuted.
+
+(* RemoveAll deleted the remote-tracking branch of a branch of the user called bugs/fix *)
+Theorem C14_removeall_user_branch_pinned_refuted : exists s n, wf s /\ is_gbref n = false /\ has_ref n (refs s) = true /\
+  snd (ent_remove_all_v1 (remotes s) KBug (refs s)) = OOk /\ has_ref n (fst (ent_remove_all_v1 (remotes s) KBug (refs s))) = false.
+Proof. exact removeall_v1_refuted. Qed.
+Print Assumptions C14_removeall_user_branch_pinned_refuted.
+
+(* a handle resolved before the removal wrote the entity back: it reappeared with the next cache rebuild *)
+Theorem C14_stale_handle_pinned_refuted : exists s k i h, wf s /\ snd (cache_remove k i s) = OOk /\
+  mem_ent (k, i) (map fst (exc (rebuild (fun _ _ c => c) (stale_commit_v1 k i h (fst (cache_remove k i s)))))) = true.
+Proof. exact stale_commit_v1_refuted. Qed.
+Print Assumptions C14_stale_handle_pinned_refuted.
+
 (* the hypotheses are satisfiable together *)
 Example C14_hyps_wf : wf s_demo.
 Proof. exact s_demo_wf. Qed.
-Example C14_hyps_removes : removes (ACliRm [97%N; 98%N]) s_demo KBug [97%N; 98%N] /\ repeatable (ACliRm [97%N; 98%N]) s_demo.
-Proof. exact (conj s_demo_removes s_demo_settled). Qed.
+Example C14_hyps_removes : removes (ACliRm id_ab) s_demo KBug id_ab /\ repeatable (ACliRm id_ab) s_demo /\
+  snd (step (fun _ _ c => c) s_demo (ACliRm id_ab) s_demo) = OOk.
+Proof. exact (conj s_demo_removes (conj s_demo_settled s_demo_removed)). Qed.
+Example C14_ids : valid_id id_ab = true /\ valid_id id_u = true /\ valid_id name_fix = false /\ valid_id [] = false.
+Proof. exact s_demo_ids. Qed.
+Example C14_hyps_wf2 : wf s_demo2.
+Proof. exact s_demo2_wf. Qed.
+(* both kinds of foreign names at once: the repaired RemoveAll removes refs/bugs/old, keeps origin/bugs/fix; the old one fails *)
+Example C14_foreign_names :
+  has_ref (mkrn KBug Local name_old) (ent_remove_all (remotes s_demo2) KBug (refs s_demo2)) = false /\
+  has_ref (mkrn KBug (Track 1%N) name_fix) (ent_remove_all (remotes s_demo2) KBug (refs s_demo2)) = true /\
+  snd (ent_remove_all_v1 (remotes s_demo2) KBug (refs s_demo2)) = EOther.
+Proof. exact s_demo2_removeall. Qed.
 Example C14_ambiguous_prefix_refused : snd (cache_remove KBug [97%N] s_demo) = EMultiple.
 Proof. exact s_demo_ambiguous. Qed.
